@@ -457,6 +457,29 @@ def explore_bfs(space, tier, seed):
             frontier = new_frontier
             if not frontier:
                 break
+        # additional, frontier-independent histories (e.g. a wider alphabet to a smaller depth)
+        extras = space.extra_histories(tier) if hasattr(space, "extra_histories") and not capped else []
+        if extras:
+            chunks = [extras[i : i + chunk_size] for i in range(0, len(extras), chunk_size)]
+            n_extra = 0
+            for rs in pool.imap_unordered(_run_hist_chunk, chunks):
+                for r in rs:
+                    if r.get("disabled"):
+                        disabled += 1
+                        continue
+                    transitions += 1
+                    n_extra += 1
+                    executed_ops += r.get("transitions", 0)
+                    if r["key"] not in seen:
+                        seen[r["key"]] = r["hist"]
+                    if r.get("nontrivial"):
+                        nontrivial.add(r["key"])
+                    for v in r.get("viol", ()):
+                        v = dict(v)
+                        v["casedata"] = r["hist"]
+                        v["index"] = (len(r["hist"]), json.dumps(r["hist"], sort_keys=True))
+                        viols.append(v)
+            per_level.append({"extra_histories": len(extras), "executed": n_extra})
     finally:
         pool.close()
         pool.join()
